@@ -282,6 +282,29 @@ def run_op(d, op, by, n, groups, cells, rec):
             finally:
                 d._group_colnames = ()
         return None
+    if op == "aggregate-reentrant":
+        # the summarising function itself groups and aggregates (the group it was given, and an unrelated frame),
+        # and sorts / uniques inside: per-call scratch state of the outer aggregate must survive that
+        other = V.frame([["k", "str", ["a", "b", "a", None, "b"]], ["v", "i8", [1, 2, 3, 4, 5]]])
+
+        def nested(g):
+            inner = g.group_by("b").aggregate(n=di.count(), lo=di.min("id"))
+            o = other.group_by("k").aggregate(n=di.count(), t=di.sum("v"))
+            g.sort(id=-1).unique("b")
+            return int(inner.nrow) * 1000 + int(o.n.sum()) * 100 + int(o.nrow)
+        out = d.group_by(*by).aggregate(n=di.count(), r=nested, dg=digest_fn, m=di.max("id"))
+        rec.state(V.frame_key(out))
+        msg = check_keys(out, by, groups)
+        if msg:
+            return msg
+        ns, rs, dgs, ms = V.cells(out["n"]), V.cells(out["r"]), V.cells(out["dg"]), V.cells(out["m"])
+        for gi, g in enumerate(groups):
+            want = len({cells["b"][i] for i in g[1]}) * 1000 + 5 * 100 + 3
+            if ns[gi] != len(g[1]) or rs[gi] != want or dgs[gi] != digest_of(g[1]) or ms[gi] != max(g[1]):
+                return (f"group {g[0]} rows {g[1]}: with a summarising function that itself groups and aggregates, n={ns[gi]} r={rs[gi]} "
+                        f"dg={dgs[gi]} m={ms[gi]}, expected {len(g[1])}, {want}, {digest_of(g[1])}, {max(g[1])}")
+        rec.outcome(("reentrant", tuple(rs)))
+        return None
     if op.startswith("helper:"):
         j = int(op.split(":")[1])
         h, kw, col = HELPERS[j]
@@ -301,7 +324,7 @@ def run_op(d, op, by, n, groups, cells, rec):
 
 
 def all_ops():
-    return ["aggregate-core", "count", "split", "modify"] + [f"helper:{j}" for j in range(len(HELPERS))]
+    return ["aggregate-core", "count", "split", "modify", "aggregate-reentrant"] + [f"helper:{j}" for j in range(len(HELPERS))]
 
 
 def run_shard(shard, rec):
@@ -321,7 +344,7 @@ def run_shard(shard, rec):
         kind, length = shard["kind"], shard["length"]
         alpha = V.alphabet(kind, "key")
         # (long groups hold several missing payload values: shorthand and lambda must still agree, e.g. count_unique)
-        core = ["aggregate-core", "count", "split", "modify", "helper:4", "helper:5", "helper:6", "helper:10", "helper:11", "helper:17"]
+        core = ["aggregate-core", "count", "split", "modify", "helper:4", "helper:5", "helper:6", "helper:10", "helper:11", "helper:17", "aggregate-reentrant"]
         for p in range(1, shard["period"] + 1):
             for pat in itertools.product(alpha, repeat=p):
                 toks = [pat[i % p] for i in range(length)]
@@ -331,7 +354,7 @@ def run_shard(shard, rec):
         k1, k2 = shard["kinds"]
         a1, a2 = V.alphabet(k1, "key"), V.alphabet(k2, "key")
         n = shard["n"]
-        core = ["aggregate-core", "count", "split", "modify", "helper:5", "helper:11"]
+        core = ["aggregate-core", "count", "split", "modify", "helper:5", "helper:11", "aggregate-reentrant"]
         lens = range(0, n + 1) if shard["first"] is None else [n]
         for m in lens:
             for t1 in itertools.product(a1, repeat=m):
